@@ -10,7 +10,7 @@ package raft
 // completeness. Removes the NI assumption of vh_ae_log for the fresh-leader
 // walk. C02.CATCHUP = C04.PAIR = C12.PROGRESS.
 func vh_catchup_session() {
-	w := 2 + vTier()
+	w := 2 // both tiers; the thorough tier adds Command/Noop mixes and MaxAppendEntries 2 (W=3 does not finish in hours)
 	base := vBase()
 	L, lenv := vNewRaft("L", vRaftOpts{n: 2, w: w, shaped: true})
 	F, fenv := vNewRaft("F", vRaftOpts{n: 1, w: w, shaped: true})
